@@ -103,6 +103,9 @@ pub enum Op {
     Burst { n: u16, kind: u8 },
     /// nest `n` local-parent scopes / collectors (popped by the normaliser)
     Nest { n: u16, span: u16 },
+    /// ages the thread: opens and closes k*1000 scopes (LocalCollector start + drop), which leaves
+    /// no trace but advances the per-thread scope bookkeeping of a long-lived thread
+    Churn { k: u8 },
     /// the vthread ends here (remaining ops are skipped; guards popped first)
     Exit,
     /// call a `#[trace]` function under the current context
@@ -154,6 +157,7 @@ pub enum K {
     Bulk,
     Burst,
     Nest,
+    Churn,
     Exit,
     TraceFn,
     N_,
@@ -412,6 +416,7 @@ pub fn op_strategy(p: &Profile) -> BoxedStrategy<Op> {
         (0u16..60, 0u8..3).prop_map(|(n, kind)| Op::Burst { n, kind }).boxed(),
     );
     add(K::Nest, (0u16..40, any::<u16>()).prop_map(|(n, span)| Op::Nest { n, span }).boxed());
+    add(K::Churn, prop_oneof![3 => 1u8..8, 1 => 60u8..72, 1 => 128u8..135].prop_map(|k| Op::Churn { k }).boxed());
     add(K::Exit, Just(Op::Exit).boxed());
     add(K::TraceFn, (0u8..4).prop_map(|kind| Op::TraceFn { kind }).boxed());
     Union::new_weighted(v).boxed()
@@ -476,6 +481,15 @@ fn template_strategy(p: &Profile, t: Template) -> BoxedStrategy<Program> {
                 let mut t0 = vec![root.clone(), root.clone(), Op::Child { parents: vec![0], np: 0, s: StrSeed { c: 0, l: 1 } }];
                 if multi {
                     t0.push(Op::Child { parents: vec![0, 30000], np: 0, s: StrSeed { c: 0, l: 2 } });
+                }
+                // "late parents": children of two traces whose roots are finished and reported
+                // before the set is pushed to the (still live) children
+                let late = open_at_collect % 2 == 1 && !cancelable;
+                if late {
+                    t0.push(Op::Child { parents: vec![30000], np: 0, s: StrSeed { c: 0, l: 3 } });
+                    t0.push(Op::Finish { span: 0 });
+                    t0.push(Op::Finish { span: 0 });
+                    t0.push(Op::Flush);
                 }
                 let mut t1 = vec![Op::CollectorStart { probe: false }];
                 // keep the forest well nested, leaving `open_at_collect` spans open
